@@ -7,7 +7,7 @@
    (Kids order and count, boxes, Rotate, Contents bytes, Resources down to font files and
    image bytes) is part of the unfolding of the page tree root. *)
 From Coq Require Import List ZArith NArith Bool.
-From PV Require Import C20.Model C20.Spec C20.Proofs C20.ProofsEqual C20.ProofsDedup C20.ProofsObs C20.ProofsTerm C20.ProofsRes.
+From PV Require Import C20.Model C20.Spec C20.Proofs C20.ProofsEqual C20.ProofsDedup C20.ProofsObs C20.ProofsTerm C20.ProofsRes C20.ProofsIdem.
 Import ListNotations.
 Open Scope Z_scope.
 
@@ -133,6 +133,24 @@ Theorem C20_consolidate_inplace_refuted : exists st pages i p d n,
   memb n (snd p) = true /\ lookupR n (st (fst p)) = Some 11 /\ lookupR n d = None.
 Proof. exact consolidate_inplace_refuted. Qed.
 Print Assumptions C20_consolidate_inplace_refuted.
+
+(* 8. "Optimizing an already optimized document removes nothing further", for the duplicate
+      form pass (optimizeXObjectResource strips /PieceInfo, THEN optimizeXObjectForm compares
+      with the cached forms): for every graph, limit and list of forms, running the pass on
+      its own result changes nothing. *)
+Theorem C20_form_dedup_idempotent : forall limit g (forms : list obj),
+  dedup obj normForm (eqForm limit g) (dedup obj normForm (eqForm limit g) forms) =
+  dedup obj normForm (eqForm limit g) forms.
+Proof. exact form_dedup_idempotent. Qed.
+Print Assumptions C20_form_dedup_idempotent.
+
+(* ... and the order matters: comparing first and stripping afterwards keeps two duplicate
+   forms that both carry a PieceInfo in the first pass (2 forms) and merges them only in the
+   second (1 form). *)
+Theorem C20_dedup_late_not_idempotent :
+  formDedupLateCounts 100 pi_g [7; 8] = (2%nat, 1%nat) /\ formDedupCounts 100 pi_g [7; 8] = (1%nat, 1%nat).
+Proof. exact dedup_late_not_idempotent. Qed.
+Print Assumptions C20_dedup_late_not_idempotent.
 
 (* ---- non-vacuity ---- *)
 (* two cyclic font-like structures (child <-> parent back references) with different
